@@ -426,6 +426,40 @@ func VerifH_C14_concurrent() {
 
 func verifAtomicBind(h *vRunHolder, gid int, r *vRun) { h.byG[gid] = r }
 
+// C14: two overlapping runs of a workflow whose consumer joins two producers. Whatever one run files in its
+// data model between the two producers of the other run, each consumer receives the values produced in its
+// own run (a data model shared between runs shows as a foreign value).
+func VerifH_C14_concurrent_join() {
+	ok := map[string]int{"deploy": 0, "start": 0, "result": 0}
+	t := tWorkflow{
+		steps: []tStep{
+			{id: "a", fields: map[string]any{"input": verifStepInput(vx("input"))}, outcome: ok},
+			{id: "c", fields: map[string]any{"input": verifStepInput(vx("input"))}, outcome: ok},
+			{id: "b", fields: map[string]any{"input": map[any]any{
+				"x": vx("steps", "a", "outputs", "success", "v"),
+				"y": vx("steps", "c", "outputs", "success", "v"),
+			}}, outcome: ok},
+		},
+		outputs: map[string]any{"success": map[any]any{"r": vx("steps", "b", "outputs", "success", "v"), "a": vx("steps", "a", "outputs", "success", "v")}},
+	}
+	h := &vRunHolder{byG: map[int]*vRun{}}
+	ew, _ := verifPrepareH(t, h)
+	runA, runB := newRun(), newRun()
+	inA, inB := verifrt.NondetVal("inputA"), verifrt.NondetVal("inputB")
+	var resB *vResult
+	done := make(chan struct{})
+	h.byG[verifrt.Gid()] = runA
+	go func() {
+		verifAtomicBind(h, verifrt.Gid(), runB)
+		resB = verifExecute(ew, runB, t, inB)
+		close(done)
+	}()
+	resA := verifExecute(ew, runA, t, inA)
+	<-done
+	verifCheck(t, runA, resA, verifNorm(inA), vCheckOpts{})
+	verifCheck(t, runB, resB, verifNorm(inB), vCheckOpts{})
+}
+
 // C15: one object with a required, a wait-optional and a soft-optional field.
 func VerifH_C15_optional_fields() {
 	ok := map[string]int{"deploy": 0, "start": 0}
@@ -479,6 +513,30 @@ func VerifH_C15_optional_two_sources() {
 			"b": vx("steps", "b", "outputs", "success", "v"),
 			"s": &infer.OptionalExpression{Expr: two(), WaitForCompletion: false},
 		}},
+	}
+	ew, run := verifPrepare(t)
+	in := verifrt.NondetVal("input")
+	res := verifExecute(ew, run, t, in)
+	verifCheck(t, run, res, verifNorm(in), vCheckOpts{})
+}
+
+// C15: a wait-optional field inside the object of a one-of alternative (tags nested in one another).
+func VerifH_C15_optional_in_oneof() {
+	t := tWorkflow{
+		steps: []tStep{
+			{id: "a", fields: map[string]any{"input": verifStepInput(vx("input"))}, outcome: map[string]int{"deploy": 0, "start": 0}},
+			{id: "c", fields: map[string]any{"input": verifStepInput(vx("input"))}, outcome: map[string]int{"deploy": 0, "start": 0}},
+			{id: "b", fields: map[string]any{
+				"input": map[any]any{"x": &infer.OneOfExpression{Discriminator: "kind", Options: map[string]any{
+					"good": map[any]any{
+						"v": vx("steps", "a", "outputs", "success", "v"),
+						"w": &infer.OptionalExpression{Expr: vx("steps", "c", "outputs", "success", "v"), WaitForCompletion: true},
+					},
+					"bad": map[any]any{"v": vx("steps", "a", "outputs", "error", "v")},
+				}}},
+			}, outcome: map[string]int{"deploy": 0, "start": 0, "result": 0}},
+		},
+		outputs: map[string]any{"success": map[any]any{"b": vx("steps", "b", "outputs", "success", "v")}},
 	}
 	ew, run := verifPrepare(t)
 	in := verifrt.NondetVal("input")
